@@ -46,6 +46,13 @@ def job_tomo(which, L, seed=0, timeout_s=10.0):
                   gen_concrete=C.tomo_gen(which, L), n_selfcheck=25)
 
 
+def job_schedules_str(seed=0, timeout_s=10.0):
+    from qverif.pyvc.verify import verify
+    from . import C20_all as C
+    return verify(C.schedules_str_contract(), "C20/StandardQTomography._validate_schedules_str", timeout_s=timeout_s, seed=seed,
+                  gen_concrete=C.schedules_str_gen(), n_selfcheck=40)
+
+
 def jobs(tier, seed):
     from . import C20_all as C
     t = 30.0 if tier == "quick" else 90.0
@@ -53,6 +60,7 @@ def jobs(tier, seed):
     for cls in ["ok"] + list(range(len(C.MALFORMED))):
         for od in (False, True):
             js.append(Job(f"C20/item/{cls}/{od}", "contracts.C20:job_item", dict(cls=cls, with_objdict=od, seed=seed, timeout_s=t)))
+    js.append(Job("C20/schedules_str", "contracts.C20:job_schedules_str", dict(seed=seed, timeout_s=t)))
     for L in range(0, 5 if tier == "quick" else 6):
         js.append(Job(f"C20/order/{L}", "contracts.C20:job_order", dict(L=L, seed=seed, timeout_s=t)))
     shapes = C.schedule_shapes(tier)
